@@ -1,8 +1,7 @@
-\* C11: one caller, two generations, cancellation + faults + Close together
-SPECIFICATION EagerSpec
+SPECIFICATION TraceSpec
 CONSTANTS
-  NC = 1
-  NG = 2
+  NC = 3
+  NG = 4
   RecvTerm = TRUE
   FixDead = TRUE
   SafeClose = TRUE
@@ -14,5 +13,7 @@ CONSTANTS
   DialedAtStart = TRUE
   MayReset = TRUE
   MaySrvClose = TRUE
-INVARIANTS Safety Recovers
+INVARIANTS TraceInv
+CONSTRAINT HighWater
+POSTCONDITION TraceAccepted
 CHECK_DEADLOCK FALSE
